@@ -20,15 +20,27 @@ pub type EvalError = Error;
 #[verifier::external_body]
 pub struct Path { _p: () }
 impl Path {
+    pub uninterp spec fn lossy(&self) -> Seq<char>;
     #[verifier::external_body]
-    pub fn to_string_lossy(&self) -> String { unimplemented!() }
+    pub fn to_string_lossy(&self) -> (r: String) ensures r@ == self.lossy() { unimplemented!() }
 }
-// D4: format! is redefined as an opaque call (message TEXT is not under contract)
+// D6: format! is expanded piece by piece (std::fmt, ASSUMED contracts)
+pub uninterp spec fn shown_usize(n: usize) -> Seq<char>;
+pub uninterp spec fn shown_error(e: Error) -> Seq<char>;       // snafu's Display of a leaf error: the message text itself is not under contract
+pub trait Disp { spec fn shown(&self) -> Seq<char>; }
+impl Disp for usize { open spec fn shown(&self) -> Seq<char> { shown_usize(*self) } }
+impl Disp for String { open spec fn shown(&self) -> Seq<char> { self@ } }
+impl Disp for &str { open spec fn shown(&self) -> Seq<char> { self@ } }
+impl Disp for Error { open spec fn shown(&self) -> Seq<char> { shown_error(*self) } }
+impl<T: Disp> Disp for &T { open spec fn shown(&self) -> Seq<char> { (**self).shown() } }
 #[verifier::external_body]
-pub fn opaque_format() -> String { unimplemented!() }
-macro_rules! format {
-    ($($t:tt)*) => { opaque_format() };
-}
+pub fn fmt_lit(s: &str) -> (r: String) ensures r@ == s@ { unimplemented!() }
+#[verifier::external_body]
+pub fn fmt_disp<T: Disp>(x: &T) -> (r: String) ensures r@ == x.shown() { unimplemented!() }
+#[verifier::external_body]
+pub fn fmt_cat(a: String, b: String) -> (r: String) ensures r@ == a@ + b@ { unimplemented!() }
+#[verifier::external_body]
+pub fn str_to_string(s: &str) -> (r: String) ensures r@ == s@ { unimplemented!() }
 """
 
 
@@ -54,6 +66,32 @@ def frames_spec(variants):
     clauses = []
     for name in transparent:
         clauses.append(f"        error is {name} ==> r.stacktrace@.len() == frames(error), // [C17_C18:transparent[{name}]_wrapper_is_invisible_to_the_renderer]")
+    # the TEXT the renderer must produce (C17: `<line>:<col>: [in '<function>': ]<message>`; one trace line per active call)
+    marms, tarms = [], []
+    for name, fields in variants:
+        f = dict(fields)
+        if f.get("source") != "Box<Error>":
+            continue
+        if name == "AtLoc":
+            marms.append("        Error::AtLoc{source, line, col} => shown_usize(line) + \":\"@ + shown_usize(col) + \":\"@ + sep(func) + \" \"@ + msg_of(func, *source),")
+            tarms.append("        Error::AtLoc{source, ..} => trace_of(path, func, *source),")
+        elif name == "EvalBuiltinFuncCallFailed":
+            marms.append("        Error::EvalBuiltinFuncCallFailed{source, func_name, call_loc} => shown_usize(call_loc.0) + \":\"@ + shown_usize(call_loc.1) + \":\"@ + sep(func) + \" \"@ "
+                         "+ msg_of(Some(callee_name(func_name)), *source),")
+            tarms.append("        Error::EvalBuiltinFuncCallFailed{source, func_name, ..} => trace_of(path, Some(callee_name(func_name)), *source),")
+        elif name == "EvalFuncCallFailed":
+            marms.append("        Error::EvalFuncCallFailed{source, func_name, ..} => msg_of(Some(callee_name(func_name)), *source),")
+            tarms.append("        Error::EvalFuncCallFailed{source, func_name, call_loc} => trace_of(path, Some(callee_name(func_name)), *source).push(\n"
+                         "            path + \":\"@ + shown_usize(call_loc.0) + \":\"@ + shown_usize(call_loc.1) + \": in '\"@ + (match func { Some(f) => f, None => \"<root>\"@ }) + \"'\"@),")
+        else:
+            marms.append(f"        Error::{name}{{source, ..}} => msg_of(func, *source),")
+            tarms.append(f"        Error::{name}{{source, ..}} => trace_of(path, func, *source),")
+    txt += ("pub open spec fn sep(func: Option<Seq<char>>) -> Seq<char> { match func { Some(f) => \" in '\"@ + f + \"':\"@, None => Seq::empty() } }\n"
+            "pub open spec fn callee_name(n: Option<String>) -> Seq<char> { match n { Some(s) => s@, None => \"<unnamed function>\"@ } }\n"
+            "pub open spec fn msg_of(func: Option<Seq<char>>, e: Error) -> Seq<char>\n    decreases e\n{\n    match e {\n" + "\n".join(marms) + "\n        _ => shown_error(e),\n    }\n}\n"
+            "pub open spec fn trace_of(path: Seq<char>, func: Option<Seq<char>>, e: Error) -> Seq<Seq<char>>\n    decreases e\n{\n    match e {\n" + "\n".join(tarms) + "\n        _ => Seq::empty(),\n    }\n}\n"
+            "pub open spec fn fview(func: Option<&str>) -> Option<Seq<char>> { match func { Some(f) => Some(f@), None => None } }\n"
+            "pub open spec fn lines(v: Seq<String>) -> Seq<Seq<char>> { v.map_values(|s: String| s@) }\n")
     return txt, transparent, "\n".join(clauses)
 
 
@@ -67,9 +105,18 @@ def build(read):
             "        (error is AtLoc || error is EvalBuiltinFuncCallFailed) ==> r.stacktrace@.len() == frames(error), // [C17:position_wrappers_add_no_stack_frame]\n"
             "        error is EvalFuncCallFailed ==> r.stacktrace@.len() == frames(error), // [C17:each_user_call_adds_exactly_one_stack_frame_after_the_inner_ones]\n"
             "        r.stacktrace@.len() == frames(error), // [C17:stack_trace_has_one_line_per_active_call]\n"
+            "        r.msg@ == msg_of(fview(func), error), // [C17_C18:the_message_is_line_colon_col_colon_optional_in_function_then_the_text_with_the_position_of_the_innermost_failure_first]\n"
+            "        lines(r.stacktrace@) == trace_of(path.lossy(), fview(func), error), // [C17:each_stack_line_is_path_line_col_in_caller_innermost_call_first]\n"
             "    decreases error\n")
-    f = extract.annotate_fn(f, spec=spec)
-    b.edits.append("D4: `format!` redefined as an opaque call; std::path::Path replaced by an opaque struct with `to_string_lossy`")
+    import re
+    import print_render as pr_unit
+    f, nfmt = pr_unit.expand_format_macros(f, "eval_err_to_stacktrace", ("format",))
+    f, ncl = re.subn(r"\|\| (\"[^\"]*\")\.to_string\(\)", r"|| -> (r: String) ensures r@ == \1@ { str_to_string(\1) }", f)
+    f = extract.annotate_fn(f, spec=spec, body_start="    broadcast use vstd::std_specs::vec::group_vec_axioms;\n")
+    f, npush = re.subn(r"(\n)(\s*)(st\.stacktrace\.push\(([^;]*)\);)",
+                       r"\1\2let ghost __t0 = st.stacktrace@;\n\2\3\n\2proof { assert(lines(st.stacktrace@) =~= lines(__t0).push(st.stacktrace@.last()@)); }", f)
+    b.edits.append(f"D6: {nfmt} `format!` invocations expanded (std::fmt assumed); {ncl} closures `|| \"..\".to_string()` given their literal postcondition; "
+                   f"{npush} ghost snapshots around `st.stacktrace.push(..)`; std::path::Path replaced by an opaque struct with `to_string_lossy`")
     b.edits.append(f"generated: frames() and {len(transparent)} transparency clauses from the {len(variants)} variants of enum Error")
     b.text = assemble([
         "// GENERATED on every run by /verif/verus/render.py from /repo's working tree - do not edit",
